@@ -301,6 +301,10 @@ theorem fofint_wide (a b c : ℤ) :
       = fofint m (a + b * pow2 192 + c * pow2 384) := by
   unfold fofint; push_cast; ring
 
+theorem fofint_lin (a b c : ℤ) :
+    fofint m a + fofint m b * fofint m c = fofint m (a + b * c) := by
+  unfold fofint; push_cast; ring
+
 /-- rests on `Secp.fermat_inv` (F1) -/
 theorem fermat_inv (hm : 2 < m) (x : ZMod m) : fpow x ((m : ℤ) - 2) = x⁻¹ := by
   unfold fpow
@@ -368,6 +372,9 @@ theorem fofint_fint (x : ℤ) : (0 ≤ x ∧ x < P) → fint (fofint P x) = x :=
 theorem fofint_wide (a b c : ℤ) :
     (fofint P a + fofint P b * ((pow2 192 : ℤ) : F)) + fofint P c * ((pow2 384 : ℤ) : F)
       = fofint P (a + b * pow2 192 + c * pow2 384) := Gen.fofint_wide a b c
+
+theorem fofint_lin (a b c : ℤ) :
+    fofint P a + fofint P b * fofint P c = fofint P (a + b * c) := Gen.fofint_lin a b c
 
 theorem fermat_inv (x : F) : fpow x ((P : ℤ) - 2) = x⁻¹ := Gen.fermat_inv two_lt_P x
 
